@@ -135,7 +135,56 @@ def normalise(tree):
                         continue
                     i += 1
     _sink_attribute_copies(tree)
+    _split_parallel_assignments(tree)
+    _self_properties_to_attributes(tree)
     return tree
+
+
+def _split_parallel_assignments(tree):
+    """`a, b = x, y`  ->  `a = x; b = y`  when no name or attribute stored on the left is read on the right (so the
+    sequential form computes the same values)."""
+    for parent in ast.walk(tree):
+        for fld in ('body', 'orelse', 'finalbody'):
+            body = getattr(parent, fld, None)
+            if not (isinstance(body, list) and body and isinstance(body[0], ast.stmt)):
+                continue
+            out = []
+            for st in body:
+                if isinstance(st, ast.Assign) and len(st.targets) == 1 and isinstance(st.targets[0], ast.Tuple) and \
+                        isinstance(st.value, ast.Tuple) and len(st.targets[0].elts) == len(st.value.elts) and \
+                        not any(isinstance(e, ast.Starred) for e in st.targets[0].elts + st.value.elts):
+                    stored = {ast.unparse(t) for t in st.targets[0].elts}
+                    read = {ast.unparse(n) for v in st.value.elts for n in ast.walk(v) if isinstance(n, (ast.Name, ast.Attribute, ast.Subscript))}
+                    if not (stored & read):
+                        for t, v in zip(st.targets[0].elts, st.value.elts):
+                            out.append(ast.copy_location(ast.Assign(targets=[t], value=v), st))
+                        continue
+                out.append(st)
+            setattr(parent, fld, out)
+    ast.fix_missing_locations(tree)
+
+
+def _self_properties_to_attributes(tree):
+    """Inside a class, reading `self.<p>` where `<p>` is a plain getter property of that class
+    (`return self._x`, no computation) is the same as reading `self._x`: rewrite to the attribute, so that rules need one
+    spelling.  Stores are left alone (setters may do more)."""
+    for c in [n for n in ast.walk(tree) if isinstance(n, ast.ClassDef)]:
+        props = {}
+        for m in c.body:
+            if isinstance(m, ast.FunctionDef) and any(isinstance(d, ast.Name) and d.id == 'property' for d in m.decorator_list):
+                body = [s for s in m.body if not (isinstance(s, ast.Expr) and isinstance(s.value, ast.Constant))]
+                if len(body) == 1 and isinstance(body[0], ast.Return) and isinstance(body[0].value, ast.Attribute) and \
+                        isinstance(body[0].value.value, ast.Name) and body[0].value.value.id == 'self':
+                    props[m.name] = body[0].value.attr
+        if not props:
+            continue
+        for m in c.body:
+            if not isinstance(m, ast.FunctionDef) or m.name in props:
+                continue
+            for n in ast.walk(m):
+                if isinstance(n, ast.Attribute) and isinstance(n.ctx, ast.Load) and isinstance(n.value, ast.Name) and \
+                        n.value.id == 'self' and n.attr in props:
+                    n.attr = props[n.attr]
 
 
 def _sink_attribute_copies(tree):
